@@ -1,5 +1,6 @@
 import HC.Proofs.Bitfield
 import HC.Props.C02
+import HC.Proofs.Replica
 /-!
 # C08 — has() and contiguous_length are exact
 
@@ -17,7 +18,11 @@ import HC.Props.C02
   pages), `has(i)` is the abstract held set for every `i` and `contiguous_length` is exactly the smallest
   index that is not held (the length if none is missing).
 
-Not covered here (validated by the correspondence run only): replicas (blocks arriving out of order), that the Rust page/word/mask arithmetic
+* `replica_exact` : on a **replica**, after first contact and the honest answers for any list of block indices in
+  any order (with repetitions), applied by `verify_and_apply_proof`: `has(i)` is true exactly for the fetched
+  indices and `contiguous_length` is exactly the smallest index not fetched.
+
+Not covered here (validated by the correspondence run only): replica reopen, that the Rust page/word/mask arithmetic
 realises `setRange`, and the page (de)serialisation — see `C08.Full` and the evidence file.
 -/
 namespace HC.C08
@@ -113,5 +118,34 @@ theorem recovered_exact (C : Crypto) (hC : HashWF C) (hS : SignWF C) (hTw : Tree
     exact ⟨_, Or.inr rfl, e1, e2, e3⟩
 
 end Model
+
+/-- **replicas, blocks arriving in any order**: `has` is the set of fetched indices and the hint is the first index
+    that was not fetched -/
+theorem replica_exact (C : Crypto) (hC : TreeStore.HashWF C) (bs : Array Bytes) (c : Core) (d : Disk)
+    (h : Replica.FreshR C bs c d) (h0 : 0 < bs.size) (sig : Bytes) (hsl : sig.length = 64)
+    (hver : C.verify c.publicKey (RefTree.signableOf C bs c.tree.fork) sig = true)
+    (is : List Nat) (his : ∀ i ∈ is, i < bs.size) :
+    let st1 := c.verifyAndApply C d (Replica.honestUpgrade C bs c.tree.fork sig)
+    let s2 := Replica.fetch C bs (st1.core, d.applyAll st1.journal) is
+    (∀ i, s2.1.has i = is.contains i) ∧ (∀ i, i < s2.1.info.contiguous → i ∈ is) ∧ s2.1.info.contiguous ∉ is := by
+  intro st1 s2
+  obtain ⟨_, r2, _, _⟩ := Replica.apply_first_upgrade C hC bs c d h h0 sig hsl hver
+  obtain ⟨r3, _⟩ := Replica.fetch_repr C hC bs is _ _ _ r2 his
+  have hb : ∀ i, s2.1.has i = is.contains i := fun i => by
+    have := r3.bits i
+    simpa [Core.has] using this
+  refine ⟨hb, fun i hi => ?_, ?_⟩
+  · have := r3.contig.1 i hi
+    have h2 := hb i
+    simp only [Core.has] at h2
+    rw [this] at h2
+    simpa using h2.symm
+  · have := r3.contig.2
+    have h2 := hb s2.1.info.contiguous
+    simp only [Core.has] at h2
+    have e : s2.1.info.contiguous = s2.1.header.contiguous := rfl
+    rw [e] at h2 ⊢
+    rw [this] at h2
+    simpa using h2.symm
 
 end HC.C08
